@@ -180,7 +180,19 @@ func runCheck(args []string, repo, specs, tier string, jobs int, verbose bool) i
 		all = append(all, obls...)
 		errs = append(errs, es...)
 	}
+	var outsideFragment []string
 	for _, job := range ps.StringTrack {
+		if job == "C18B" {
+			var j ReglJob
+			if b, err := os.ReadFile(filepath.Join(specs, "regl", "C18A.json")); err == nil {
+				json.Unmarshal(b, &j)
+			}
+			obls, es, outside := tierBJob(repo, verifDir, prop, j.Forbidden)
+			all = append(all, obls...)
+			errs = append(errs, es...)
+			outsideFragment = outside
+			continue
+		}
 		obls, es := reglJob(job, repo, prop, thorough)
 		all = append(all, obls...)
 		errs = append(errs, es...)
@@ -207,6 +219,21 @@ func runCheck(args []string, repo, specs, tier string, jobs int, verbose bool) i
 	var boundedReports []map[string]interface{}
 	boundedViol := []string{}
 	for _, bname := range ps.Bounded {
+		if bname == "C18C" {
+			var j ReglJob
+			if b, err := os.ReadFile(filepath.Join(specs, "regl", "C18A.json")); err == nil {
+				json.Unmarshal(b, &j)
+			}
+			var hs []string
+			for _, o := range outsideFragment {
+				hs = append(hs, strings.SplitN(o, ":", 2)[0])
+			}
+			rep, viol := tierC(repo, verifDir, prop, j.Forbidden, hs, thorough)
+			rep["outside_fragment"] = outsideFragment
+			boundedReports = append(boundedReports, rep)
+			boundedViol = append(boundedViol, viol...)
+			continue
+		}
 		rep, viol := runBounded(bname, repo, verifDir, prop, thorough, seed)
 		boundedReports = append(boundedReports, rep)
 		boundedViol = append(boundedViol, viol...)
